@@ -8,8 +8,8 @@
        Spec/PsiSpec.v (any table ids the section parser decodes: C13's domain enters as the parameter SP), and an
        optional tail of 0xFF bytes;
      - each unit is CUT AT ARBITRARY POINTS: the payloads of its packets are any byte strings whose concatenation is
-       the unit (scoping S5 for PSI units: the first packet reaches the first byte of the last section, and the packet
-       holding the last byte of the last section is the last one);
+       the unit (scoping S5 for PSI units: no packet but the last ends on a section boundary or in the 0xFF tail - the
+       accumulator takes a payload that ends on a section boundary for a complete unit);
      - each piece travels in a conformant 188-byte packet (C11's domain wf_packet: the adaptation field - with any
        optional parts and any number of stuffing bytes of any value - fills what the piece leaves), payload_unit_start
        on the first packet of a unit only, continuity counters consecutive per PID;
@@ -132,11 +132,19 @@ Definition psi_unit_ok (u : psi_unit) : Prop :=
 Definition psi_unit_bytes (u : psi_unit) : list Z :=
   su_ptr u :: su_fill u ++ concat (map sec_bytes (su_secs u)) ++ repeat 255 (su_tail u).
 
-(* offsets of the first byte of the last section and of the byte behind it *)
-Definition last_sec_start (u : psi_unit) : Z :=
-  1 + su_ptr u + Z.of_nat (length (concat (map sec_bytes (removelast (su_secs u))))).
-Definition last_sec_end (u : psi_unit) : Z :=
-  1 + su_ptr u + Z.of_nat (length (concat (map sec_bytes (su_secs u)))).
+(* does the byte offset L lie strictly inside one of the sections that begin at offset [start]: behind the section's
+   first byte, before its end *)
+Fixpoint inside_secs (start : Z) (secs : list psi_sec) (L : Z) : bool :=
+  match secs with
+  | [] => false
+  | s :: r => let e := start + Z.of_nat (length (sec_bytes s)) in
+              ((start <? L) && (L <? e)) || inside_secs e r L
+  end.
+
+(* a beginning of L bytes of the unit does not end on a section boundary (nor in the 0xFF tail): it ends before the
+   first section or strictly inside a section *)
+Definition psi_mid (u : psi_unit) (L : Z) : bool :=
+  (L <? 1 + su_ptr u) || inside_secs (1 + su_ptr u) (su_secs u) L.
 
 (* ---------------- units and their carriage ---------------- *)
 
@@ -167,10 +175,10 @@ Definition cu_pkts (c : carried) : list spkt := cu_first c :: cu_rest c.
 
 Definition payload_of (l : list spkt) : list Z := concat (map sp_payload l).
 
-(* a PSI unit of which only the packets l have arrived is not yet complete and its last section has begun *)
+(* scoping S5: the packets l, a proper beginning of the carriage of a PSI unit, do not end on a section boundary *)
 Definition psi_partial (u : sunit) (l : list spkt) : Prop :=
   match u with
-  | UPsi su => last_sec_start su < Z.of_nat (length (payload_of l)) < last_sec_end su
+  | UPsi su => psi_mid su (Z.of_nat (length (payload_of l))) = true
   | UPes _ => True
   end.
 
